@@ -87,7 +87,7 @@ def recheck_coq(ctx, translator_ok, translator_log):
     cone = vlib.coq_cone(PROP_FILES)
     if "Gen/Protocol.v" not in cone:
         cone.append("Gen/Protocol.v")
-    cb = vlib.build_coq()
+    cb = vlib.build_coq(only=cone)
     failed = [f for f in cb.failed_files if f in cone]
     broken = [b for b in ctx.proof_broken if b.startswith("hygiene")]
     if not translator_ok:
